@@ -80,12 +80,22 @@ def gen_chains(cfg="ChainGen_q.cfg", timeout=600):
 
 def decorate(scs, *, seed, calls_choices=(("invoke",), ("stream",), ("invoke", "stream"), ("stream", "invoke")),
              snode_frac=0.35, strm_branch_frac=0.3, noid_frac=0.0, state_frac=0.0, fail_variants=False, state_variants=False,
-             delay_frac=0.5, echo_frac=0.0, wrap_frac=0.3, rmax_frac=0.0):
+             delay_frac=0.5, echo_frac=0.0, wrap_frac=0.3, rmax_frac=0.0, anyout_frac=0.0, all_paradigms=False):
     """Secondary dimensions that TLC does not enumerate are spread deterministically (seeded) over the scenarios."""
     rnd = random.Random(seed)
     for i, sc in enumerate(scs):
         sc["id"] = "%s-%d" % (sc.get("fam", "s"), i)
         sc["calls"] = list(calls_choices[rnd.randrange(len(calls_choices))])
+        if all_paradigms and rnd.random() < 0.35:
+            # Collect / Transform as well (the caller hands a stream in), sometimes in two chunks
+            sc["calls"] = list((("transform",), ("collect",), ("transform", "invoke"), ("collect", "stream"), ("stream", "transform"),
+                                ("invoke", "collect"))[rnd.randrange(6)])
+            if rnd.random() < 0.5:
+                sc["chunks"] = 2
+        if anyout_frac and sc["mode"] in ("pregel", "dag") and sc.get("lower") != "chain" and rnd.random() < anyout_frac \
+                and sum(1 for e in sc["edges"] if e[1] == "end") == 1 and not any("end" in b["ends"] for b in sc["branches"]):
+            # the graph's output type differs from its input type (Graph[map, any]); one producer for END, so nothing is merged as `any`
+            sc["anyout"] = True
         sc["snodes"] = [n for n in sc["nodes"] if rnd.random() < snode_frac]
         for b in sc["branches"]:
             b["strm"] = rnd.random() < strm_branch_frac
@@ -147,6 +157,15 @@ def decorate(scs, *, seed, calls_choices=(("invoke",), ("stream",), ("invoke", "
                 # a panic inside the lazily converted output stream of the node; other nodes stream too, so that fan-ins merge
                 sc["fail"] = [{"n": sc["fail"][0]["n"], "kind": "spanic"}]
                 sc["snodes"] = list(sc["nodes"])
+            elif 0.54 <= r < 0.70 and sc["fail"][0]["n"] not in (sc.get("sub") or {}) and sc["fail"][0]["n"] not in sc.get("rerun", []):
+                # the failure surfaces in the node's state pre-handler (the body never runs) or post-handler (after the body)
+                sc["state"] = True
+                if r < 0.62:
+                    sc["fail"] = [{"n": sc["fail"][0]["n"], "kind": "prerr"}]
+                else:
+                    sc["post"] = True
+                    sc["fail"] = [{"n": sc["fail"][0]["n"], "kind": "posterr"}]
+                sc["shand"] = rnd.random() < 0.4
         sc.setdefault("maxcalls", 8)
     return scs
 
